@@ -212,6 +212,74 @@ class Gen:
                     self.ints.append(v)
         return out
 
+    def class_program(self, name):
+        """objects: fields, a property, methods calling each other, class constants, a subclass with super(), a custom exception"""
+        r = self.r
+        self.ints = ["self.a", "self._t", "v", "self.LIMIT"]
+        e1, e2, e3, e4 = self.iexpr(1), self.iexpr(1), self.iexpr(1), self.iexpr(1)
+        c1, c2 = self.cond(1), self.cond(1)
+        self.ints = ["x", "y"]
+        calls = []
+        for _ in range(r.randrange(2, 5)):
+            calls.append(r.choice(("r.append(k.step(%s))", "r.append(k.check(%s))", "r.append(k.dbl + (%s))", "k.a = %s",
+                                   "r.append(k.both(%s))")) % self.iexpr(1))
+        body = "\n        ".join(calls)
+        return """
+class E_%(n)s(Exception):
+    def __init__(self, code):
+        super().__init__(code)
+        self.code = code
+
+
+class B_%(n)s:
+    LIMIT = %(lim)d
+
+    def __init__(self, a):
+        self.a = a
+        self._t = 0
+        self.buf = bytearray()
+
+    @property
+    def dbl(self):
+        return self.a * 2
+
+    def step(self, v):
+        if %(c1)s:
+            self._t ^= 0x10
+            self.buf.extend(bytes([v & 0xFF]))
+        else:
+            self.a = %(e1)s
+        return self._t
+
+    def check(self, v):
+        if %(c2)s:
+            raise E_%(n)s((%(e2)s) & 0xFFFF)
+        return self.dbl - (%(e3)s)
+
+    def both(self, v):
+        return self.step(v) + self.check(v + 1)
+
+
+class K_%(n)s(B_%(n)s):
+    LIMIT = %(lim2)d
+
+    def step(self, v):
+        t = super().step(v ^ 1)
+        self.a = self.a + (%(e4)s & 0xFF)
+        return t + 1
+
+
+def %(n)s(x, y, b):
+    k = K_%(n)s(x) if y & 1 else B_%(n)s(x)
+    r = []
+    try:
+        %(body)s
+    except E_%(n)s as e:
+        r.append(-e.code - 1)
+    return (tuple(r), k.a, k._t, bytes(k.buf), k.dbl)
+""" % {"n": name, "lim": r.randrange(0, 300), "lim2": r.randrange(0, 300), "c1": c1, "c2": c2, "e1": e1, "e2": e2, "e3": e3,
+       "e4": e4, "body": body}, self.nb
+
     def program(self, name):
         body = self.stmts(1, 0)
         ret = "    return (%s, tuple(acc), out, (d.get(0, -1), d.get(1, -1), d.get(2, -1), d.get(3, -1)))" % ", ".join(self.r.sample(self.ints, min(3, len(self.ints))))
@@ -268,7 +336,8 @@ def main():
     progs = []
     src = ["import struct\n"]
     for i in range(n):
-        text, nb = Gen(rng).program("f%d" % i)
+        g = Gen(rng)
+        text, nb = g.class_program("f%d" % i) if i % 4 == 3 else g.program("f%d" % i)
         progs.append((text, nb))
         src.append(text)
     with open(path, "w") as f:
